@@ -342,6 +342,11 @@ def call_site(repo, chk, fn):
         if u.args and isinstance(u.args[0], ast.DictComp) and isinstance(u.args[0].key, ast.Tuple):
             k = [ast.unparse(e) for e in u.args[0].key.elts]
             oks = k == ['row.FeatureB', 'row.FeatureA']
+            if k == ['row.FeatureA', 'row.FeatureB']:
+                # the same orientation as the first fill: found and wrong
+                chk.bad('C17.7b', 'R6', rk.site(u), ast.unparse(u).replace('\n', ' ')[:140], 'the relation dictionary is "mirrored" with the keys in the SAME orientation (FeatureA, FeatureB) as its first fill: the update changes nothing, '
+                        'the pairs (b, a) stay missing and count as 0, so the relation of a pair is lost whenever the already ranked feature is its second component')
+                return
     if not oks and ups:
         # other spellings of the mirrored pairs: .update(dict(zip(zip(df[B], df[A]), scores))) with the two name columns swapped w.r.t. the first fill
         def _resolve(e, depth=0):
